@@ -127,6 +127,7 @@ type fnCtx struct {
 	top      *fnCtx // top-level activation (owns defs, obligations, counters)
 	defs     *Defs
 	vals     map[ssa.Value]Val
+	exitSeen map[string]int
 	escaping map[*ssa.Alloc]bool
 	inline   bool // inlined activation
 	specMode bool // no obligations at all (spec evaluation)
@@ -192,6 +193,7 @@ type loopInfo struct {
 	measures []string
 	hdrState *State
 }
+
 
 func (fc *fnCtx) S() *Sorts { return fc.eng.sorts }
 
@@ -1206,6 +1208,35 @@ func (fc *fnCtx) flow(from, to *ssa.BasicBlock, st *State, in map[*ssa.BasicBloc
 		}
 		return
 	}
+	if !fc.inline && !fc.specMode {
+		for _, li := range fc.loops {
+			if li.spec == nil || len(li.spec.Exits) == 0 || !li.blocks[from] || li.blocks[to] {
+				continue
+			}
+			// leaving loop li (condition false or break): its exit clauses hold here
+			saveLoop, savePos := fc.top.curLoop, fc.top.curPos
+			fc.top.curLoop, fc.top.curPos = li, token.NoPos
+			for i, ec := range li.spec.Exits {
+				env := fc.specEnv(st, nil)
+				g, err := env.goal(ec.Expr)
+				if err != nil {
+					fc.specError(ec, err)
+					continue
+				}
+				name := fc.loopClauseName(li, "exit", i, ec)
+				if n := fc.exitSeen[name]; n > 0 {
+					name = fmt.Sprintf("%s.x%d", name, n+1)
+				}
+				if fc.exitSeen == nil {
+					fc.exitSeen = map[string]int{}
+				}
+				fc.exitSeen[fc.loopClauseName(li, "exit", i, ec)]++
+				fc.oblige(st, "loop-exit", name, g, "holds when the loop is left: "+ec.Text, token.NoPos, true)
+				fc.assume(st, g)
+			}
+			fc.top.curLoop, fc.top.curPos = saveLoop, savePos
+		}
+	}
 	in[to] = append(in[to], inEdge{from, st})
 }
 
@@ -1450,6 +1481,21 @@ func (fc *fnCtx) closeLoop(li *loopInfo, st *State, from *ssa.BasicBlock) {
 			continue
 		}
 		fc.oblige(st, "loop-preserved", fc.loopClauseName(li, "preserved", i, inv)+suffix, g, "loop invariant preserved: "+inv.Text, token.NoPos, true)
+	}
+	for i, sc := range li.spec.Steps {
+		// old(e) is e at the start of this iteration (the loop head, invariants assumed)
+		env := fc.specEnv(st, nil)
+		if li.hdrState != nil {
+			head := fc.specEnv(li.hdrState, nil)
+			env.old = li.hdrState
+			env.oldVars = head.vars
+		}
+		g, err := env.goal(sc.Expr)
+		if err != nil {
+			fc.specError(sc, err)
+			continue
+		}
+		fc.oblige(st, "loop-step", fc.loopClauseName(li, "step", i, sc)+suffix, g, "one iteration takes the loop state from old(..) to ..: "+sc.Text, token.NoPos, true)
 	}
 	for i, d := range li.spec.Decreases {
 		if i >= len(li.measures) {
@@ -2271,6 +2317,15 @@ func (fc *fnCtx) execSlice(st *State, x *ssa.Slice) {
 		} else {
 			mx = n
 		}
+		if l := base.Addr; l != nil && !(l.Kind == lvHeap && len(l.Path) == 0) && !(l.Kind == lvGlobal && len(l.Path) == 0) && onlyCopyDst(x) {
+			// `copy(local.arr[lo:hi], src)`: the slice is a window on an array this function
+			// holds by value and it goes nowhere else; the copy is an update of that array
+			g := fmt.Sprintf("(and (<= 0 %s) (<= %s %s) (<= %s %s) (<= %s %s))", lo, lo, hi, hi, mx, mx, n)
+			fc.oblige(st, "slice", "", g, "array slice bounds in range", x.Pos(), false)
+			fc.assume(st, g)
+			fc.vals[x] = Val{T: arrWindow, Ty: x.Type(), Addr: l, Tup: []Val{{T: lo}, {T: hi}}}
+			return
+		}
 		p := fc.materialize(st, base)
 		g := fmt.Sprintf("(and (<= 0 %s) (<= %s %s) (<= %s %s) (<= %s %s))", lo, lo, hi, hi, mx, mx, n)
 		fc.oblige(st, "slice", "", g, "array slice bounds in range", x.Pos(), false)
@@ -2280,6 +2335,31 @@ func (fc *fnCtx) execSlice(st *State, x *ssa.Slice) {
 		fc.noteImprecise("slice of %s", x.X.Type())
 		fc.vals[x] = fc.freshVal(st, x.Name(), x.Type())
 	}
+}
+
+// arrWindow marks the value of `a[lo:hi]` for an array a held by value whose only use is
+// as the destination of copy (see execSlice and the copy builtin).
+const arrWindow = "@arrwindow"
+
+func onlyCopyDst(x *ssa.Slice) bool {
+	refs := x.Referrers()
+	if refs == nil || len(*refs) == 0 {
+		return false
+	}
+	for _, r := range *refs {
+		if _, ok := r.(*ssa.DebugRef); ok {
+			continue
+		}
+		c, ok := r.(*ssa.Call)
+		if !ok {
+			return false
+		}
+		b, ok := c.Call.Value.(*ssa.Builtin)
+		if !ok || b.Name() != "copy" || len(c.Call.Args) != 2 || c.Call.Args[0] != ssa.Value(x) || c.Call.Args[1] == ssa.Value(x) {
+			return false
+		}
+	}
+	return true
 }
 
 // afterStore handles `assert after var#k` ghost assertions.
